@@ -253,4 +253,167 @@ theorem posetTops_eq_model (s : St α) (hc : s.useCache = false) :
       | ok a => cases h : a.isEmpty <;> simp [Functor.map, Except.map, h, bind, Except.bind])
     _
 
+/-! ## `join` / `meet` -/
+
+theorem setInsert_eq (x : Nat) (l : List Nat) : Gen.setUnion l [x] = Poset.setInsert x l := by
+  unfold Gen.setUnion Poset.setInsert
+  by_cases h : x ∈ l <;> simp [h]
+
+theorem setInter_eq' (a b : List Nat) : Gen.setInter a b = Poset.setInter a b := by
+  unfold Gen.setInter Poset.setInter
+  apply List.filter_congr
+  intro x _
+  simp
+
+/-- the intersection loop of `join` / `meet` -/
+theorem inter_loop (s : St α) (step : List Nat → Nat → M α (List Nat)) (clo : Nat → Except PyErr (List Nat))
+    (hstep : ∀ acc x, step acc x s = (s, (clo x).map fun a => Poset.setInter acc (Poset.setInsert x a)))
+    (xs acc : List Nat) :
+    M.foldM step acc xs s = (s, forIn xs acc (fun x (r : List Nat) =>
+      (clo x >>= fun t => (pure (ForInStep.yield (Gen.setInter r (Gen.setUnion t [x]))) : Except PyErr _)))) := by
+  apply foldM_eq s step _ (fun acc x => (clo x).map fun a => Poset.setInter acc (Poset.setInsert x a)) hstep
+  intro x acc
+  cases clo x with
+  | error e => rfl
+  | ok t => simp [Functor.map, Except.map, setInter_eq', setInsert_eq]
+
+/-- the pruning loop of `join` / `meet` (no membership test, unlike `_children_nocache`) -/
+theorem diff_loop (s : St α) (step : List Nat → Nat → M α (List Nat)) (clo : Nat → Except PyErr (List Nat))
+    (hstep : ∀ acc x, step acc x s = (s, (clo x).map fun a => Poset.setDiff acc a))
+    (xs acc : List Nat) :
+    M.foldM step acc xs s = (s, forIn xs acc (fun x (r : List Nat) =>
+      (clo x >>= fun t => (pure (ForInStep.yield (Gen.setDiff r t)) : Except PyErr _)))) := by
+  apply foldM_eq s step _ (fun acc x => (clo x).map fun a => Poset.setDiff acc a) hstep
+  intro x acc
+  cases clo x with
+  | error e => rfl
+  | ok t => simp [Functor.map, Except.map, setDiff_eq]
+
+/-- one round of either loop in the model, with the closed relation answered without touching the state -/
+theorem bound_step (s : St α) (cloM : Nat → M α (List Nat)) (clo : Nat → Except PyErr (List Nat))
+    (hclo : ∀ x, cloM x s = (s, clo x)) (k : List Nat → Nat → List Nat → List Nat) (acc : List Nat) (x : Nat) :
+    ((cloM x).bind fun a => pure (k acc x a) : M α (List Nat)) s = (s, (clo x).map fun a => k acc x a) := by
+  simp only [M.bind, hclo x]
+  cases clo x <;> rfl
+
+theorem M_bind_ok {β γ : Type} (m : M α β) (f : β → M α γ) (s : St α) (b : β) (hm : m s = (s, .ok b)) :
+    (m.bind f) s = f b s := by
+  simp only [M.bind, hm]
+
+theorem M_bind_err {β γ : Type} (m : M α β) (f : β → M α γ) (s : St α) (e : PyErr) (hm : m s = (s, .error e)) :
+    (m.bind f) s = (s, .error e) := by
+  simp only [M.bind, hm]
+
+/-- with exactly one element left, the order in which Python walks the set does not matter -/
+theorem pick_single (hord : ∀ l, (ord l).Perm l) (j : List Nat) :
+    (if (j.length == 1) = true then (Gen.idx (ord j) 0).bind fun t => Except.ok (some t) else Except.ok none)
+      = (Except.ok (if (j.length == 1) = true then j.head? else none) : Except PyErr (Option Nat)) := by
+  match j with
+  | [] => rfl
+  | [z] =>
+    have : ord [z] = [z] := List.perm_singleton.mp (hord [z])
+    simp [this, Gen.idx, Except.bind]
+  | _ :: _ :: _ => simp
+
+/-- `join` / `meet` once the default selection is resolved, over the closed relation `clo` of the right direction -/
+theorem bound_core (s : St α) (hord : ∀ l, (ord l).Perm l) (cloM : Nat → M α (List Nat))
+    (clo : Nat → Except PyErr (List Nat)) (hclo : ∀ x, cloM x s = (s, clo x)) (L : List Nat) :
+    (match L with
+      | [] => (M.throw PyErr.IndexError : M α (Option Nat))
+      | x :: xs =>
+        (cloM x).bind fun a0 =>
+          (M.foldM (fun acc y => (cloM y).bind fun a => pure (Poset.setInter acc (setInsert y a)))
+                (setInsert x a0) xs).bind
+            fun j1 =>
+            (M.foldM (fun acc y => (cloM y).bind fun a => pure (Poset.setDiff acc a)) j1 (ord j1)).bind
+              fun j2 => pure (if (j2.length == 1) = true then j2.head? else none)) s
+    = (s, (Gen.idx L 0).bind fun t1 =>
+          (clo t1).bind fun t2 =>
+            (Gen.idx L 0).bind fun t3 =>
+              (forIn (List.drop 1 L) (Gen.setUnion t2 [t3]) fun el_idx (r : List Nat) =>
+                    (clo el_idx).bind fun t4 =>
+                      Except.ok (ForInStep.yield (Gen.setInter r (Gen.setUnion t4 [el_idx])))).bind
+                fun j1 =>
+                (forIn (ord j1) j1 fun el_idx (r : List Nat) =>
+                      (clo el_idx).bind fun t5 => Except.ok (ForInStep.yield (Gen.setDiff r t5))).bind
+                  fun j2 =>
+                  if (j2.length == 1) = true then (Gen.idx (ord j2) 0).bind fun t6 => Except.ok (some t6)
+                  else Except.ok none) := by
+  cases L with
+  | nil => rfl
+  | cons x xs =>
+    have h0 : Gen.idx (x :: xs) 0 = Except.ok x := rfl
+    simp only [h0, except_ok_bind, List.drop_succ_cons, List.drop_zero]
+    cases hx : clo x with
+    | error e => rw [M_bind_err _ _ s e (by rw [hclo x, hx])]; rfl
+    | ok a0 =>
+      rw [M_bind_ok _ _ s a0 (by rw [hclo x, hx])]
+      simp only [except_ok_bind]
+      have hI := inter_loop s (fun acc y => (cloM y).bind fun a => pure (Poset.setInter acc (setInsert y a))) clo
+        (fun acc y => bound_step s cloM clo hclo (fun acc y a => Poset.setInter acc (setInsert y a)) acc y)
+        xs (setInsert x a0)
+      rw [setInsert_eq]
+      cases hj1 : (forIn xs (setInsert x a0) fun x_1 (r : List Nat) =>
+          (clo x_1 >>= fun t => (pure (ForInStep.yield (Gen.setInter r (Gen.setUnion t [x_1]))) : Except PyErr _))) with
+      | error e =>
+        rw [hj1] at hI
+        rw [M_bind_err _ _ s e hI]
+        have : (forIn xs (setInsert x a0) fun el_idx (r : List Nat) =>
+          (clo el_idx).bind fun t4 => Except.ok (ForInStep.yield (Gen.setInter r (Gen.setUnion t4 [el_idx])))) = Except.error e := hj1
+        rw [this]; rfl
+      | ok j1 =>
+        rw [hj1] at hI
+        rw [M_bind_ok _ _ s j1 hI]
+        have : (forIn xs (setInsert x a0) fun el_idx (r : List Nat) =>
+          (clo el_idx).bind fun t4 => Except.ok (ForInStep.yield (Gen.setInter r (Gen.setUnion t4 [el_idx])))) = Except.ok j1 := hj1
+        rw [this]
+        simp only [except_ok_bind]
+        have hD := diff_loop s (fun acc y => (cloM y).bind fun a => pure (Poset.setDiff acc a)) clo
+          (fun acc y => bound_step s cloM clo hclo (fun acc y a => Poset.setDiff acc a) acc y) (ord j1) j1
+        cases hj2 : (forIn (ord j1) j1 fun x_1 (r : List Nat) =>
+            (clo x_1 >>= fun t => (pure (ForInStep.yield (Gen.setDiff r t)) : Except PyErr _))) with
+        | error e =>
+          rw [hj2] at hD
+          rw [M_bind_err _ _ s e hD]
+          have : (forIn (ord j1) j1 fun el_idx (r : List Nat) =>
+            (clo el_idx).bind fun t5 => Except.ok (ForInStep.yield (Gen.setDiff r t5))) = Except.error e := hj2
+          rw [this]; rfl
+        | ok j2 =>
+          rw [hj2] at hD
+          rw [M_bind_ok _ _ s j2 hD]
+          have : (forIn (ord j1) j1 fun el_idx (r : List Nat) =>
+            (clo el_idx).bind fun t5 => Except.ok (ForInStep.yield (Gen.setDiff r t5))) = Except.ok j2 := hj2
+          rw [this]
+          simp only [except_ok_bind, pick_single ord hord j2]
+          rfl
+
+-- @target posetJoin
+/-- `join(S)`; `None` and `[]` both stand for "all elements"; `hord`: Python walks a set in SOME order -/
+theorem posetJoin_eq_model (s : St α) (hc : s.useCache = false) (hord : ∀ l, (ord l).Perm l) (S : Option (List Nat)) :
+    (boundE leq ord .anc (S.getD [])).run s = (s, Fca.Gen.Lists.posetJoin ord (recvOf leq s) S) := by
+  unfold Fca.Gen.Lists.posetJoin boundE
+  simp only [M.run, bind, M.bind, M.get, posetLen_eq_model, ok_bind, pure_eq_ok, recvOf, Gen.range, Gen.len, except_ok_bind]
+  have core := bound_core ord s hord (closedE leq .anc) (fun x => posetAncestors ord ⟨s.elems, leq⟩ x)
+    (fun x => by have := posetAncestors_eq_model leq ord s hc x; simpa [M.run, recvOf] using this)
+  cases S with
+  | none => exact core (List.range s.elems.length)
+  | some xs =>
+    cases xs with
+    | nil => exact core (List.range s.elems.length)
+    | cons y ys => exact core (y :: ys)
+
+-- @target posetMeet
+theorem posetMeet_eq_model (s : St α) (hc : s.useCache = false) (hord : ∀ l, (ord l).Perm l) (S : Option (List Nat)) :
+    (boundE leq ord .desc (S.getD [])).run s = (s, Fca.Gen.Lists.posetMeet ord (recvOf leq s) S) := by
+  unfold Fca.Gen.Lists.posetMeet boundE
+  simp only [M.run, bind, M.bind, M.get, posetLen_eq_model, ok_bind, pure_eq_ok, recvOf, Gen.range, Gen.len, except_ok_bind]
+  have core := bound_core ord s hord (closedE leq .desc) (fun x => posetDescendants ord ⟨s.elems, leq⟩ x)
+    (fun x => by have := posetDescendants_eq_model leq ord s hc x; simpa [M.run, recvOf] using this)
+  cases S with
+  | none => exact core (List.range s.elems.length)
+  | some xs =>
+    cases xs with
+    | nil => exact core (List.range s.elems.length)
+    | cons y ys => exact core (y :: ys)
+
 end Fca.Gen.Lists
